@@ -429,6 +429,34 @@ Fixpoint mon_c15 (policy : N) (ops : list (N * packet)) (ws : list wev) : bool :
   | _ :: rest => mon_c15 policy ops rest
   end.
 
+(* at submission: while no connection is established (the engine was not Connected when the call was
+   made) an operation of a kind the policy rejects is failed with the offline-policy error within the
+   submitting call; in every other case the submission is not failed for lack of a connection.
+   [prev]: protocol state after the previous call; [pending]: the submission being judged and
+   whether the offline-policy failure of that very operation has been seen in this call *)
+Fixpoint mon_c15_submit (policy : N) (prev : pstate) (pending : option (N * packet * bool)) (ws : list wev) : bool :=
+  match ws with
+  | [] => true
+  | WSubmit _ id p _ :: rest =>
+      (* a DISCONNECT has no result channel: its fate is not observable as a completion *)
+      mon_c15_submit policy prev (if is_disconnect p then None else Some (id, p, false)) rest
+  | WDone _ id c :: rest =>
+      match pending, c with
+      | Some (id0, p, _), CompErr EOfflineQueuePolicyFailed =>
+          if id0 =? id then mon_c15_submit policy prev (Some (id0, p, true)) rest else mon_c15_submit policy prev pending rest
+      | _, _ => mon_c15_submit policy prev pending rest
+      end
+  | WCall _ (EvUser _ _ _) r sn :: rest =>
+      (match pending with
+       | Some (_, p, failed) =>
+           if is_okb r then Bool.eqb failed (negb (pstate_eqb prev Connected) && negb (passes_policy policy p)) else true
+       | None => true
+       end) && mon_c15_submit policy (sn_st sn) None rest
+  | WCall _ _ _ sn :: rest => mon_c15_submit policy (sn_st sn) None rest
+  | WNst _ _ sn :: rest => mon_c15_submit policy (sn_st sn) pending rest
+  | _ :: rest => mon_c15_submit policy prev pending rest
+  end.
+
 (* ------------------------------------------------------------------ C17: outbound topic aliases *)
 (* server-side table of the current connection: alias -> topic *)
 Fixpoint mon_c17_out (v5 : bool) (maxalias : N) (table : list (N * bytes)) (subm : list (N * bytes)) (ws : list wev) : bool :=
@@ -486,6 +514,31 @@ Fixpoint mon_c18_timeout (tmo : list (N * N)) (written : list (N * N)) (anon : l
            end
        | _ => true end) && mon_c18_timeout tmo (filter (fun '(i, _) => negb (i =? id)) written) anon rest
   | _ :: rest => mon_c18_timeout tmo written anon rest
+  end.
+
+(* not later: a service call at time t that succeeds leaves no operation incomplete whose acknowledged
+   packet was completely written on this connection at w with w + T <= t (the engine processes ack
+   timeouts at the end of every successful service call in the Connected / PendingDisconnect states) *)
+Fixpoint mon_c18_late (tmo : list (N * N)) (written : list (N * N)) (ws : list wev) : bool :=
+  match ws with
+  | [] => true
+  | WSubmit _ id _ (Some d) :: rest => mon_c18_late (insert id d tmo) written rest
+  | WOpen _ :: rest => mon_c18_late tmo [] rest
+  | WClose _ _ :: rest => mon_c18_late tmo [] rest
+  | WReset _ :: rest => mon_c18_late [] [] rest
+  | WSent now p (Some id) :: rest =>
+      match p, packet_pid p with
+      | Publish _, Some _ | Subscribe _, Some _ | Unsubscribe _, Some _ | Pubrel _, Some _ => mon_c18_late tmo ((id, now) :: written) rest
+      | _, _ => mon_c18_late tmo written rest
+      end
+  | WDone _ id _ :: rest => mon_c18_late tmo (filter (fun '(i, _) => negb (i =? id)) written) rest
+  | WCall t (EvService _ _ _) r sn :: rest =>
+      (if is_okb r && (pstate_eqb (sn_st sn) Connected || pstate_eqb (sn_st sn) PendingDisconnect) then
+         forallb (fun '(id, w) => match lookup id tmo with
+                                  | Some d => if w + d <=? t then negb (mem id (sn_ops sn)) else true
+                                  | None => true end) written
+       else true) && mon_c18_late tmo written rest
+  | _ :: rest => mon_c18_late tmo written rest
   end.
 
 (* interrupted-retry limit: failure with MaxInterruptedRetriesExceeded exactly at the (N+1)-th
@@ -633,6 +686,8 @@ Definition all_monitors (cfg : config) (ws : list wev) : list (N * bool) :=
     (1403, mon_c14_live false ws);
     (1402, mon_c14_zero cfg 0 ws);
     (1501, mon_c15 (cf_policy cfg) [] ws);
+    (1502, mon_c15_submit (cf_policy cfg) Disconnected None ws);
     (1701, mon_c17_out v5 0 [] [] ws);
     (1801, mon_c18_timeout [] [] [] ws);
+    (1803, mon_c18_late [] [] ws);
     (1802, mon_c18_retry (cf_retry cfg) dummy [] ws) ].
